@@ -151,6 +151,14 @@ func (j jarRW) ReadState(r *http.Request) (authboss.ClientState, error) {
 			snap[k] = v
 		}
 	}
+	if j.S.NoteFn != nil {
+		ks := sortedKeys(snap)
+		var sb strings.Builder
+		for _, k := range ks {
+			sb.WriteString(k + "=" + snap[k] + ";")
+		}
+		j.S.note("ReadState %s %s", j.name(), sb.String())
+	}
 	return snap, nil
 }
 
